@@ -51,6 +51,26 @@ def members(x):
     out = [a for a in typing.get_args(x) if not exempt(a)]
     if typing.get_origin(x) is typing.Annotated:
         out = out[:1]
+    o = typing.get_origin(x)
+    if is_user_class(o) and isinstance(getattr(o, "__parameters__", None), tuple) and o.__parameters__:
+        # a parameterised user generic: the field types of its class with the type-variables filled in
+        given = dict(zip(o.__parameters__, typing.get_args(x)))
+        try:
+            hints = typing.get_type_hints(o)
+        except Exception:  # noqa: BLE001
+            hints = {}
+        if not hints:
+            try:
+                hints = {k: v for k, v in typing.get_type_hints(o.__init__).items() if k != "return"}
+            except Exception:  # noqa: BLE001
+                hints = {}
+        for h in hints.values():
+            if h in given:
+                h = given[h]
+            elif getattr(h, "__parameters__", None) and any(p_ in given for p_ in h.__parameters__):
+                h = h[tuple(given.get(p_, p_) for p_ in h.__parameters__)]
+            if not exempt(h):
+                out.append(h)
     if is_user_class(x):
         try:
             hints = typing.get_type_hints(x)
